@@ -199,6 +199,18 @@ def configs() -> list:
         # a nearer frame binds a LARGER predicate containing P (this_p/root_p pick it; lazy_p by name does not)
         cs.append(C(f"{kn}/larger_predicate_in_nearer_frame", [("m", HDR + f"def h(p, v):\n    Q = p | is_int_p\n    @CALL P ;; p ;; v\ndef cfg():\n    {P}\n    for x in XS:\n        h(P, x)\ncfg()\n")],
                     {"P": (S if k == "L" else None)}, note="this_p/root_p: a related larger predicate is found earlier in the search order (outside the property; correspondence only)"))
+        # the same local NAME bound to different predicates in two functions of one module, called alternately (anything that
+        # remembers a resolution per module/name instead of per node answers for the wrong one)
+        r = REF[k]("P")
+        cs.append(C(f"{kn}/same_name_in_two_functions", [("m", HDR + f"def chk_s(v):\n    P = is_str_p | is_list_of_p({r})\n    @CALL PS ;; P ;; v\n"
+                                                           f"def chk_i(v):\n    P = is_int_p | is_list_of_p({r})\n    @CALL PI ;; P ;; v\n"
+                                                           "for x in XS:\n    chk_s(x)\n    chk_i(x)\n")], {"PS": S, "PI": I}))
+        cs.append(C(f"{kn}/helper_rebuilds_predicate_with_other_leaf", [("m", HDR + f"def build_s(v):\n    P = is_str_p | is_list_of_p({r})\n    @CALL PS ;; P ;; v\n"
+                                                                          f"def build_i(v):\n    P = is_int_p | is_list_of_p({r})\n    @CALL PI ;; P ;; v\n"),
+                                                                   ("main", "for x in XS:\n    m.build_s(x)\nfor x in XS:\n    m.build_i(x)\n")], {"PS": S, "PI": I}))
+        # a USER module whose name merely starts like the library's package name
+        cs.append(C(f"{kn}/user_module_named_predicates_common", [("predicates_common", HDR + f"def cfg():\n    {P}\n{loopP}cfg()\n")], {"P": S}))
+        cs.append(C(f"{kn}/user_module_named_predicate_utils_helper", [("predicate_utils", HELPERS), ("m", HDR + f"def cfg():\n    {P}\n    for x in XS:\n        predicate_utils.d2(P, x)\ncfg()\n")], {"P": S}))
     # the library's own tests' shapes
     cs.append(C("this_p/or_inside_list", [("m", HDR + "def cfg():\n    P = is_str_p | is_list_of_p(this_p | is_int_p)\n    for x in XS:\n        @CALL P ;; P ;; x\ncfg()\n")], {"P": "rec(is_str, is_int)"}))
     cs.append(C("this_p/used_inside_larger_predicate", [("m", HDR + "def cfg():\n    P = is_str_p | is_list_of_p(this_p)\n    Q = P | is_int_p\n    for x in XS:\n        @CALL Q ;; Q ;; x\ncfg()\n")], {"Q": "lambda x: rec(is_str)(x) or is_int(x)"}))
